@@ -668,6 +668,13 @@ def run(ctx):
                 d[f'{data_s}!A{r}'] = r * 100
             forms = {'A1': f'=SUM({qs}!2:2)', 'A2': f'=MAX({qs}!3:3)',
                      'A4': f'=SUM({qs}!$2:$3)'}
+            # ... and bounded rectangles that reach past column ZZ
+            for c, v in ((700, 7.0), (702, 11.0), (703, 13.0), (704, 17.0),
+                         (705, 19.0), (731, 23.0)):
+                d[f'{data_s}!{ref.col_letters(c)}9'] = v
+            d['Calc!B1'] = f'=SUM({qs}!ZX9:AAC9)'
+            d['Calc!B2'] = f'=SUM({qs}!AAB9:AAC9)+COUNT({qs}!$ZZ$9:$ABC$9)'
+            d['Calc!B3'] = f'=SUM({qs}!AAA9:AAB9)-SUM({qs}!AAB9:AAB9)'
             if ctx.shard % 3 == 0:
                 forms['A3'] = f'=SUM({qs}!A:A)'     # (a million cells: slow)
             for k_, f_ in forms.items():
@@ -686,7 +693,8 @@ def run(ctx):
                                  if k_.startswith(data_s + '!') and
                                  k_.split('!')[1].lstrip('ABCDEFGHIJ') == str(r)]
                 col_a = [v for k_, v in state.items()
-                         if k_.startswith(data_s + '!A')]
+                         if k_.startswith(data_s + '!') and
+                         k_.split('!')[1].rstrip('0123456789') == 'A']
                 return {'A1': sum(row(2)), 'A2': max(row(3)),
                         'A3': sum(col_a), 'A4': sum(row(2)) + sum(row(3)),
                         'A5': sum(row(2)) + sum(col_a)}
@@ -701,6 +709,19 @@ def run(ctx):
                     ev_.set_cell_value(a_, v_)
                     state[a_] = v_
                 want = expect()
+                for k_b, w_b in (('B1', 7.0 + 11 + 13 + 17 + 19),
+                                 ('B2', 17.0 + 19 + 5), ('B3', 13.0)):
+                    got = subject.outcome_of(
+                        lambda: ev_.evaluate(f'Calc!{k_b}'))
+                    ctx.event('whole_row_column_evaluations')
+                    if got != ('value', ('num', w_b)):
+                        ctx.fail(f'{d["Calc!" + k_b]} over values at columns '
+                                 f'ZX, ZZ, AAA, AAB, AAC, ABC of row 9: '
+                                 f'observed {got}, expected {w_b}',
+                                 {'formula': d['Calc!' + k_b],
+                                  'observed': got, 'reference': w_b},
+                                 monitor='probe-value',
+                                 group='beyond-ZZ:' + k_b)
                 for k_ in forms:
                     got = subject.outcome_of(
                         lambda: ev_.evaluate(f'Calc!{k_}'))
@@ -730,7 +751,8 @@ def run(ctx):
         return
     for _ in range(40 if not thorough else 400):
         s = rng.choice(SHEETS)
-        c1, r1 = rng.randint(1, 60), rng.randint(1, 60)
+        c1, r1 = rng.choice([rng.randint(1, 60), rng.randint(696, 706),
+                             rng.randint(16370, 16376)]), rng.randint(1, 60)
         c2, r2 = c1 + rng.randint(0, 7), r1 + rng.randint(0, 7)
         fl = tuple(rng.random() < 0.3 for _ in range(4))
         text = ref.render_ref(('rng', s, c1, r1, c2, r2, fl))
